@@ -290,6 +290,7 @@ func hunt(o Opts) {
 	var handed3 []*Case3
 	var clamp3 *Case3
 	var handed5 []*Case5
+	var handed6 []*Case6
 	report := func(c *Case, msg string) {
 		s := shrink(c)
 		execute(s)
@@ -308,6 +309,7 @@ func hunt(o Opts) {
 			Cases3 []*Case3 `json:"cases3"`
 			Clamp  *Case3   `json:"vclamp_witness"`
 			Cases5 []*Case5 `json:"cases5"`
+			Cases6 []*Case6 `json:"cases6"`
 		}
 		if b, err := os.ReadFile(o.Replay); err == nil {
 			json.Unmarshal(b, &in)
@@ -326,6 +328,12 @@ func hunt(o Opts) {
 		handed2 = in.Cases2
 		handed3, clamp3 = in.Cases3, in.Clamp
 		handed5 = in.Cases5
+		handed6 = in.Cases6
+	}
+	if res["found"] == false {
+		o6 := o
+		o6.N = o.N / 3
+		hunt6(o6, handed6, res)
 	}
 	if res["found"] == false {
 		hunt5(o, handed5, res)
